@@ -223,14 +223,47 @@ def check_merge(ctx):
     fv = view(m, fi)
     si = stmt_index(fv)
     site = CART + ":merge"
-    outer = [s for s in fv.statements() if isinstance(s, ast.For) and "periodic" in U(s.iter)]
+    def _first_test(loop):
+        b = [x for x in loop.body if not (isinstance(x, ast.Expr) and isinstance(x.value, ast.Constant))]
+        return b[0] if b and isinstance(b[0], ast.If) else None
+
+    outer = [s for s in fv.statements() if isinstance(s, ast.For) and ("periodic" in U(s.iter) or (_first_test(s) is not None and "periodic" in U(_first_test(s).test)))]
+    outer = [s for s in outer if not any(s is not o and any(x is s for x in ast.walk(o)) for o in outer)]
     if len(outer) != 1:
         ctx.undecided("MERGE", site, fi, "loop over the periodic axes not found")
         return
     lp = outer[0]
     axv = U(lp.target)
-    ok_it = U(lp.iter) in ("np.flatnonzero(grid.periodic)", "np.nonzero(grid.periodic)[0]", "np.where(grid.periodic)[0]")
-    ctx.decide(ok_it, "MERGE", site + ":axes", (fi, lp), "every periodic axis is processed", f"merging iterates `{U(lp.iter)}` instead of all periodic axes")
+    # which axes does the loop process?  (truth table over one axis being periodic or not, whatever the selection is spelled like)
+    it_txt = U(lp.iter)
+    verdict, why = None, ""
+    if it_txt in ("np.flatnonzero(grid.periodic)", "np.nonzero(grid.periodic)[0]", "np.where(grid.periodic)[0]", "np.flatnonzero(grid.periodic).tolist()"):
+        verdict = True
+    else:
+        flag = None  # expression that is true for a periodic axis
+        if isinstance(lp.target, ast.Tuple) and len(lp.target.elts) == 2 and it_txt == "enumerate(grid.periodic)":
+            axv = U(lp.target.elts[0])
+            flag = U(lp.target.elts[1])
+        elif isinstance(lp.target, ast.Name) and it_txt in ("range(grid.num_axes)", "range(grid.dim)", "range(len(grid.periodic))", "range(len(grid.shape))"):
+            flag = f"grid.periodic[{axv}]"
+        ft = _first_test(lp)
+        if flag is not None and ft is not None:
+            from ..astutil import canon_tests
+
+            tests = canon_tests(ft.test, True)
+            others = [x for x in lp.body if x is not ft and not (isinstance(x, ast.Expr) and isinstance(x.value, ast.Constant))]
+            if tests == [(flag, True)] and not ft.orelse and not others:
+                verdict = True  # if periodic: BODY
+            elif tests == [(flag, False)] and len(ft.body) == 1 and isinstance(ft.body[0], ast.Continue) and not ft.orelse:
+                verdict = True  # if not periodic: continue
+            elif tests == [(flag, False)] and len(ft.body) == 1 and isinstance(ft.body[0], ast.Break):
+                verdict, why = False, "the loop stops at the first non-periodic axis (`break`): periodic axes that follow a non-periodic one are never merged"
+            elif tests == [(flag, True)] and any(isinstance(x, (ast.Break, ast.Return)) for x in ast.walk(ast.Module(body=ft.orelse, type_ignores=[]))):
+                verdict, why = False, "the loop stops at the first non-periodic axis: periodic axes that follow a non-periodic one are never merged"
+    if verdict is None:
+        ctx.undecided("MERGE", site + ":axes", (fi, lp), f"selection of the periodic axes not recognised: `{it_txt}`")
+    else:
+        ctx.decide(verdict, "MERGE", site + ":axes", (fi, lp), "every periodic axis is processed", why or f"merging iterates `{it_txt}` instead of all periodic axes")
     side = {}  # list name -> 'low' | 'high'
 
     def res(expr, at):
@@ -590,3 +623,31 @@ def check_spherical(ctx):
     cons = [c for c in fv.calls() if U(c.func) == "SphericalDroplet" and kwarg(c, "radius") is not None and U(kwarg(c, "radius")) == "radius"]
     okc = len(cons) == 1 and U(cons[0].args[0]) == "np.zeros(grid.dim)"
     ctx.decide(okc, "FLOW", SPHR + ":construct", (fi, cons[0]) if cons else fi, "the droplet is centred at the origin", "the located droplet is not centred at the origin of the symmetric grid")
+
+
+def check_label_connectivity(ctx, rule="CONNECT"):
+    """Clusters are the face-connected components of the image: every ndimage.label call of the locators uses the default
+    structuring element (or generate_binary_structure(dim, 1)).  The periodic stitching joins only cells that face each other
+    across a boundary, so a wider connectivity inside the image would make the number of clusters depend on where the
+    periodic boundary cuts the pattern (translation changes the count)."""
+    m = ctx.model
+    n = 0
+    for fi in m.all_functions():
+        if fi.module.name != IMG:
+            continue
+        fv = view(m, fi)
+        for c in fv.calls():
+            name = fv.callee(c) or ""
+            if not name.endswith("ndimage.label") and not name.endswith("measurements.label"):
+                continue
+            st = arg_or_kw(c, 1, "structure")
+            ok = st is None or (isinstance(st, ast.Constant) and st.value is None)
+            if not ok:
+                sx = fv.expand(st, c)
+                if isinstance(sx, ast.Call) and (fv.callee(sx) or U(sx.func)).endswith("generate_binary_structure") and len(sx.args) == 2 and U(sx.args[1]) == "1":
+                    ok = True
+            n += 1
+            ctx.decide(ok, rule, f"{fi.qualname}:label", (fi, c), "clusters are face-connected components (default structuring element), like the stitching across periodic boundaries",
+                       f"`{U(c)[:80]}` labels with a non-default structuring element: cells touching only at edges/corners join inside the image but not across a periodic boundary, "
+                       "so the number of located droplets changes when the field is translated")
+    return n
